@@ -36,7 +36,7 @@ BASES = ["plain", "aliased", "schema", "temporal", "subq", "subq_aliased", "seto
 ITEMS = ["plain", "aliased", "self", "subq", "cte_ref", "schema"]
 PREV = [False, True]
 # operand table roles
-ROLES = ["base", "item", "prev", "absent", "base_twin", "base_other_alias", "item_twin", "none", "declared_cte", "base_other_schema",
+ROLES = ["base", "item", "prev", "absent", "base_twin", "base_other_alias", "item_twin", "none", "declared_cte", "base_other_schema", "base_twin_mysql_cls",
          "absent_subquery", "absent_setop", "absent_aliased_subquery"]
 CRITS = ["eq", "eq_swapped", "eq_samecol", "and_third", "or_third", "func", "neg", "in_sub_absent", "eq_scalar_sub", "between"]
 
@@ -115,6 +115,11 @@ def role_table(role, base, base_twin, item, item_twin, prev):
         return (base_twin(), True) if base_twin else None
     if role == "item_twin":
         return (item_twin(), True) if item_twin else None
+    if role == "base_twin_mysql_cls":
+        # the same table handed out by another dialect's query class: equal, hence available
+        if isinstance(base, Table):
+            return Table(base._table_name, schema=base._schema, alias=base.alias, query_cls=MySQLQuery), True
+        return None
     if role == "base_other_alias":
         if isinstance(base, Table):
             return Table(base._table_name, schema=base._schema, alias="zz_alias"), False
@@ -162,7 +167,7 @@ def mk_crit(shape, A, B, C):
 
 def join_cases(tier):
     roles2 = ROLES if tier == "thorough" else ["base", "item", "prev", "absent", "base_twin", "base_other_alias", "none", "declared_cte", "base_other_schema",
-                                                "absent_subquery", "absent_setop"]
+                                                "absent_subquery", "absent_setop", "base_twin_mysql_cls"]
     for b in BASES:
         for it in ITEMS:
             for pv in PREV:
